@@ -54,6 +54,20 @@ def run(tier):
     res.floor("C17.R2", 3)
     res.floor("C17.R4", 8)
     res.floor("C17.R5", 4)
+    if tier == "thorough":
+        # every call sequence up to 6 calls (one protocol; up to 3 for the other seven) against the reference behaviour the property states
+        from .. import builder_sem
+        nseq, probs_, why_ = builder_sem.exhaustive(facts, S.entry_points(facts), 6, 3)
+        res.extra["call_sequences_explored"] = nseq
+        if why_:
+            res.oblige(False)
+            res.violate("C17.R9", "PasetoBuilder", "call sequences not decided", "exhaustive exploration of call sequences could not be completed (fail closed): %s" % why_)
+        for p_ in probs_[:10]:
+            res.oblige(False)
+            res.violate("C17.R9", "PasetoBuilder", p_.split(":")[0][:100], p_)
+        if not why_ and not probs_:
+            res.oblige(True)
+            res.inst("C17.R9", "all %d call sequences over {set_claim(K | nbf | exp | other), acknowledge, set_footer, build} up to 6 calls behave as the reference model (duplicates -> Err naming a duplicated key, exp removed exactly when acknowledged, builds repeatable)" % nseq)
     res.explanation = ("abstract interpretation of PasetoBuilder::set_claim over {insert -> new, insert -> duplicate} x {key = nbf, other} and of verify_ready_to_build over {acknowledged} x {duplicate flag}; "
                        "who-writes analysis of the flag and the key set over the whole crate (monotonicity); CFG dominance of the duplicate check before any encryption / signing in the 8 build methods")
     return res
